@@ -8,6 +8,7 @@ B  file-derived indices are range-checked: a value read from the file may be use
 C  written precision >= max_digits10 (scientific, setprecision(p) with p + 1 >= 21)
 """
 import os
+import re
 
 import ir
 from ir import walk, unwrap, show
@@ -229,7 +230,7 @@ def analyse_reader(ck, u, an, f):
             xx = unwrap(n['x'])
             if xx['k'] == 'un' and xx['op'] == '&':
                 add(n, 'sink', ('pointer offset', [d for d in refs(n['y']) if d in tainted], n))
-        if n['k'] == 'ret':
+        if n['k'] == 'ret' and not f.in_lambda(n):
             add(n, 'ret', n)
     for b in events:
         events[b].sort(key=lambda t: (t[0], t[1]))
@@ -374,22 +375,74 @@ def rule_B(ck, units):
             analyse_reader(ck, u, an, f)
 
 
+MAX_DIGITS10 = {'float': 9, 'double': 17, 'long double': 21}
+
+
+def const_int(u, x, depth=0):
+    """compile-time integer value of x: literal, constant expression, or a call of a function whose body is `return <constant>`"""
+    x = unwrap(x)
+    if x is None:
+        return None
+    if x['k'] == 'lit' and x.get('t') == 'int':
+        return int(x['v'])
+    if 'cv' in x:
+        return int(x['cv'])
+    if x['k'] == 'call' and 'fd' in x and not x.get('a') and depth < 3:
+        g = u.by_id.get(x['fd'])
+        if g is not None:
+            rets = [n for n in walk(g.body) if n['k'] == 'ret']
+            if len(rets) == 1 and rets[0].get('e') is not None:
+                return const_int(u, rets[0]['e'], depth + 1)
+    if x['k'] == 'bin' and x['op'] in ('+', '-'):
+        a, b = const_int(u, x['x'], depth), const_int(u, x['y'], depth)
+        if a is not None and b is not None:
+            return a + b if x['op'] == '+' else a - b
+    return None
+
+
 def rule_C(ck, units):
-    ck.rule('C.precision', 'detail::write_value prints in scientific notation with setprecision(p), p + 1 >= 21 = max_digits10 of long double', 2)
+    ck.rule('C.precision', 'detail::write_value<Val> prints floating-point values in scientific notation with setprecision(p), p + 1 >= max_digits10 of the scalar type of Val '
+                           '(9 / 17 / 21 for float / double / long double): the number of significant digits that guarantees an exact text round trip', 2)
     done = set()
     for u in units.values():
         for f in u.funcs:
             if f.q != 'amgcl::io::detail::write_value':
                 continue
-            key = 'amgcl::io::detail::write_value#%d' % f.line
+            m = re.search(r'write_value<(.*)>$', f.full.split('(')[0].strip())
+            val = m.group(1) if m else '?'
+            key = 'amgcl::io::detail::write_value<%s>' % val
             if key in done:
                 continue
             done.add(key)
+            scalar = val
+            mm = re.match(r'std::complex<(.*)>$', val)
+            if mm:
+                scalar = mm.group(1).strip()
+            need = MAX_DIGITS10.get(scalar)
+            if need is None:
+                # integer kinds are printed exactly whatever the manipulators are
+                ck.ob('C.precision', key, f.where(), True, '', trivial=True)
+                continue
             sci = any(x['k'] == 'ref' and x['n'] == 'scientific' for x in walk(f.body))
             prec = [unwrap(c['a'][0]) for c in f.calls('std::setprecision') if c.get('a')]
-            p = max([int(x['v']) for x in prec if x['k'] == 'lit'] or [0])
-            ok = sci and p + 1 >= 21
-            ck.ob('C.precision', key, f.where(), ok, '' if ok else 'values are written with %s and precision %d: not enough digits for an exact round trip' % ('scientific' if sci else 'default notation', p))
+            vals = []
+            unknown = []
+            for x in prec:
+                v = const_int(u, x)
+                if v is None:
+                    unknown.append(x)
+                else:
+                    vals.append(v)
+            p_ = min(vals) if vals else 0
+            ok = sci and bool(vals) and not unknown and p_ + 1 >= need
+            det = ''
+            if not ok:
+                if unknown:
+                    det = 'the precision `%s` is not a compile-time constant: the number of digits written cannot be established' % show(unknown[0])[:60]
+                else:
+                    det = '%s values are written with %s and precision %d (%d significant digits): an exact round trip needs %d' % (
+                        scalar, 'scientific' if sci else 'default notation', p_, p_ + 1 if sci else p_, need)
+            ck.ob('C.precision', key, f.where(), ok, det)
 
 
 def main(tier):
@@ -403,6 +456,287 @@ def main(tier):
     rule_A(ck, units)
     rule_B(ck, units)
     rule_C(ck, units)
+    rule_D(ck, units)
+    rule_E(ck, units)
     ck.assumptions += ['the round trip itself and row-range slices being equal to the full read are not decided',
                        'allocation sizes and loop bounds taken from the file fail by exception (length_error / bad_alloc / unexpected eof) and are not treated as sinks']
     return ck.finish()
+
+
+# ------------------------------------------------------------------ D: symmetric expansion vs row filter
+def iteration_conditions(f, L, target_block):
+    """branching blocks inside one iteration of loop L that decide whether target_block is reached
+    (control dependences of the target relative to the entry of the loop body)"""
+    cfg = f.cfg
+    lcond = [b for b, blk in cfg.blocks.items() if blk.get('term') == L['i']]
+    if not lcond:
+        return None
+    H = lcond[0]
+    entry = cfg.succ[H][0] if cfg.succ[H] else None
+    if entry is None:
+        return None
+    # blocks that can reach the target without passing the loop header
+    can = {target_block}
+    work = [target_block]
+    while work:
+        b = work.pop()
+        for p in cfg.pred[b]:
+            if p != H and p not in can:
+                can.add(p)
+                work.append(p)
+    fwd = set()
+    work = [entry]
+    while work:
+        b = work.pop()
+        if b in fwd or b == H:
+            continue
+        fwd.add(b)
+        for s in cfg.succ[b]:
+            if s is not None:
+                work.append(s)
+    out = []
+    for b in fwd & can:
+        ss = [s for s in cfg.succ[b] if s is not None]
+        if len(ss) >= 2 and any(s not in can for s in ss) and b != target_block:
+            out.append(b)
+    return out
+
+
+def rule_D(ck, units):
+    ck.rule('D.symmetric-mirror', 'in the coordinate reader every stored entry (i, j) of a symmetric file contributes its mirror (j, i) whenever j lies in the requested row range: '
+                                  'whether the mirrored entry is counted and stored is decided only by the symmetry flag, i != j and the position of j - never by the position of i in the row range '
+                                  '(and the direct entry only by the position of i)', 1)
+    done = set()
+    for u in units.values():
+        for f in u.funcs:
+            if f.q != 'amgcl::io::mm_reader::operator()' or f.cfg is None or len(f.params) != 5:
+                continue
+            if f.full in done:
+                continue
+            done.add(f.full)
+            loc = locate(f)
+            # the (row, col) pair extracted from one data line: `is >> i >> j`
+            pair = None
+            for n in f.nodes.values():
+                if n['k'] == 'bin' and n['op'] == '>>' and n.get('f', '').endswith('operator>>'):
+                    x, y = unwrap(n['x']), unwrap(n['y'])
+                    if x is not None and x['k'] == 'bin' and x['op'] == '>>' and y is not None and y['k'] == 'ref' and unwrap(x['y'])['k'] == 'ref':
+                        loops = [a for a in f.ancestors(n) if a['k'] in ('for', 'while', 'do')]
+                        if loops and is_int(u, f, y['d']) and is_int(u, f, unwrap(x['y'])['d']):
+                            pair = (unwrap(x['y'])['d'], y['d'], loops[0])
+            key = '%s|%s' % (f.rel(), f.full[:140])
+            if pair is None:
+                ck.brk('D.symmetric-mirror: no `is >> i >> j` inside a loop in %s' % f.full[:100])
+                continue
+            ri, cj, L = pair
+            # counting statements ++ptr[<expr of v>] inside the loop, by the index variable they use
+            counts = {ri: [], cj: []}
+            for n in walk(L['b']):
+                if n['k'] == 'un' and n['op'] in ('++',):
+                    e = unwrap(n['e'])
+                    if e is not None and e['k'] == 'idx':
+                        vs = refs(e['x'])
+                        for v in (ri, cj):
+                            if v in vs and (ri if v == cj else cj) not in vs:
+                                counts[v].append(n)
+            if not counts[ri] and not counts[cj]:
+                ck.brk('D.symmetric-mirror: the reader loop of %s no longer counts entries per row with ++ptr[..]; the rule needs to be re-derived' % f.full[:100])
+                continue
+            if not counts[ri] or not counts[cj]:
+                ck.ob('D.symmetric-mirror', key, f.where(L), False, 'the reader loop has no separate count for the %s entry: symmetric storage is not expanded' % ('mirrored' if counts[ri] else 'direct'))
+                continue
+            bad = []
+            for v, other, what in ((cj, ri, 'mirrored'), (ri, cj, 'direct')):
+                for n in counts[v]:
+                    conds = iteration_conditions(f, L, loc[n['i']][0])
+                    for b in conds or []:
+                        c = f.cfg.cond(b)
+                        if c is None:
+                            continue
+                        rs = refs(c)
+                        if other in rs and v not in rs:
+                            bad.append('whether the %s entry is counted at %s depends on `%s` at %s, a test of the other index only' % (what, f.where(n), show(c)[:60], f.where(c)))
+            ck.ob('D.symmetric-mirror', key, f.where(L), not bad, '; '.join(bad[:2]))
+
+
+# ------------------------------------------------------------------ E: file offsets of partial binary reads
+def poly_add(a, b, k=1):
+    out = dict(a)
+    for m, c in b.items():
+        out[m] = out.get(m, 0) + k * c
+        if out[m] == 0:
+            del out[m]
+    return out
+
+
+def poly_mul(a, b):
+    out = {}
+    for m1, c1 in a.items():
+        for m2, c2 in b.items():
+            m = tuple(sorted(m1 + m2))
+            out[m] = out.get(m, 0) + c1 * c2
+            if out[m] == 0:
+                del out[m]
+    return out
+
+
+def poly_of(u, f, e, depth=0):
+    """polynomial over symbols (variables by name, sizeof(T), X.front(), X.back()) of an integer expression;
+    local variables with a single definition by initialiser are inlined.  None when the form is not polynomial."""
+    e = unwrap(e)
+    while e is not None and (e['k'] == 'cast' or (e['k'] == 'ctor' and len(e.get('a', [])) == 1)):
+        e = unwrap(e['e'] if e['k'] == 'cast' else e['a'][0])    # fpos(offset), size_t(x)
+    if e is None or depth > 8:
+        return None
+    if e['k'] == 'lit' and e.get('t') == 'int':
+        v = int(e['v'])
+        return {(): v} if v else {}
+    if e['k'] == 'sizeof':
+        return {('sizeof(%s)' % u.type(e['t']).strip(),): 1}
+    if e['k'] == 'ref':
+        d = f.decl(e['d'])
+        if d.get('k') == 'local':
+            init = None
+            nassign = 0
+            for n in f.nodes.values():
+                if n['k'] == 'decl':
+                    for v in n['v']:
+                        if v['d'] == e['d'] and v.get('init') is not None:
+                            init = v['init']
+                if n['k'] == 'bin' and n['op'] in ('=', '+=', '-=', '*=', '/=') and unwrap(n['x'])['k'] == 'ref' and unwrap(n['x'])['d'] == e['d']:
+                    nassign += 1
+                if n['k'] == 'un' and n['op'] in ('++', '--') and unwrap(n['e'])['k'] == 'ref' and unwrap(n['e'])['d'] == e['d']:
+                    nassign += 1
+            # a local that is also the target of a read(f, x) is a symbol (its value comes from the file)
+            isread = any(n['k'] == 'call' and n.get('f') == 'amgcl::io::read' and len(n.get('a', [])) == 2 and unwrap(n['a'][1])['k'] == 'ref' and unwrap(n['a'][1])['d'] == e['d']
+                         for n in f.nodes.values())
+            if init is not None and nassign == 0 and not isread:
+                p = poly_of(u, f, init, depth + 1)
+                if p is not None:
+                    return p
+        return {(d['n'],): 1}
+    if e['k'] == 'call' and e.get('m') in ('front', 'back', 'size') and e.get('obj') is not None and unwrap(e['obj'])['k'] == 'ref':
+        return {('%s.%s()' % (unwrap(e['obj'])['n'], e['m']),): 1}
+    if e['k'] == 'bin' and e['op'] in ('+', '-'):
+        a, b = poly_of(u, f, e['x'], depth + 1), poly_of(u, f, e['y'], depth + 1)
+        if a is None or b is None:
+            return None
+        return poly_add(a, b, 1 if e['op'] == '+' else -1)
+    if e['k'] == 'bin' and e['op'] == '*':
+        a, b = poly_of(u, f, e['x'], depth + 1), poly_of(u, f, e['y'], depth + 1)
+        if a is None or b is None:
+            return None
+        return poly_mul(a, b)
+    return None
+
+
+def poly_show(p):
+    if not p:
+        return '0'
+    return ' + '.join(('%s' % '*'.join(m) if c == 1 and m else ('%d' % c if not m else '%d*%s' % (c, '*'.join(m)))) for m, c in sorted(p.items()))
+
+
+def elem_type(u, f, e):
+    r = unwrap(e)
+    if r is None or r['k'] != 'ref':
+        return None, None
+    t = u.type(f.decl(r['d']).get('ct')).replace('&', '').strip()
+    if 'vector<' in t:
+        return t[t.index('vector<') + 7:].split(',')[0].strip().rstrip('>').strip(), True
+    return t, False
+
+
+def rule_E(ck, units):
+    ck.rule('E.seek-layout', 'binary readers: the file position of every read equals (sizes of all preceding sections of the file, each count * sizeof(its own element type)) '
+                             '+ (first element requested) * sizeof(element type of the array being read): CRS file = n | ptr[n+1] | col[nnz] | val[nnz], dense file = n | m | v[n*m]; '
+                             'the first element is row_beg (row-indexed sections: ptr, dense rows * m) or the first row pointer of the strip (col, val)', 4)
+    done = set()
+    for u in units.values():
+        for f in u.funcs:
+            if f.q not in ('amgcl::io::read_crs', 'amgcl::io::read_dense') or f.cfg is None:
+                continue
+            # only instantiations in which the element types of all sections are pairwise distinct can tell the offsets apart
+            ptypes = [u.type(f.decl(d).get('ct')).replace('&', '').strip() for d in f.params]
+            vecs = [t for t in ptypes if 'vector<' in t]
+            els = [t[t.index('vector<') + 7:].split(',')[0].strip().rstrip('>').strip() for t in vecs]
+            scal = ptypes[1].strip() if len(ptypes) > 1 else '?'
+            if len(set(els + [scal])) != len(els) + 1:
+                continue
+            if f.full in done:
+                continue
+            done.add(f.full)
+            loc = locate(f)
+            # sequence of seek / read events in source order (the readers are straight-line code)
+            evs = []
+            for n in f.nodes.values():
+                if n['k'] == 'call' and n.get('m') == 'seekg' and n.get('a'):
+                    evs.append((n['i'], 'seek', n))
+                elif n['k'] == 'call' and n.get('f') == 'amgcl::io::read' and len(n.get('a', [])) == 2:
+                    evs.append((n['i'], 'read', n))
+            evs.sort(key=lambda t: t[0])     # node ids follow source order; the readers are straight-line code
+            names = [f.param_name(i) for i in range(len(f.params))]
+            S = lambda t: {('sizeof(%s)' % t,): 1}
+            V = lambda s: {(s,): 1}
+            if f.q.endswith('read_crs'):
+                nm, ptr, col, val, rb = names[1], names[2], names[3], names[4], names[5]
+                T = dict(zip(('ptr', 'col', 'val'), els))
+                hdr = S(scal)
+                start = {ptr: hdr,
+                         col: poly_add(hdr, poly_mul(poly_add(V(nm), {(): 1}), S(T['ptr']))),
+                         }
+                start[val] = None  # needs nnz: the variable read at offset hdr + n * sizeof(Ptr)
+            else:
+                nm, mm_, vv, rb = names[1], names[2], names[3], names[4]
+                T = {'v': els[0]}
+                hdr = poly_mul({(): 2}, S(scal))
+                start = {vv: hdr}
+            pos = None
+            nnz_sym = None
+            k = 0
+            for _, kind, n in evs:
+                if kind == 'seek':
+                    pos = (poly_of(u, f, n['a'][0]), n)
+                    continue
+                tgt = unwrap(n['a'][1])
+                et, isvec = elem_type(u, f, n['a'][1])
+                tname = tgt['n'] if tgt['k'] == 'ref' else '?'
+                if pos is None:
+                    continue      # sequential read of the header
+                p, sk = pos
+                pos = None
+                k += 1
+                key = '%s|%s|%s' % (f.rel(), f.q, tname)
+                if p is None:
+                    ck.ob('E.seek-layout', key, f.where(sk), False, 'the offset `%s` is not a polynomial in the sizes: cannot be compared with the file layout' % show(sk['a'][0])[:80])
+                    continue
+                if f.q.endswith('read_crs') and not isvec:
+                    # the scalar read between ptr and col: must be the last row pointer ptr[n] = nnz
+                    exp = poly_add(hdr, poly_mul(V(nm), S(T['ptr'])))
+                    ok = p == exp and et == T['ptr']
+                    if ok:
+                        nnz_sym = tname
+                        start[val] = poly_add(start[col], poly_mul(V(tname), S(T['col'])))
+                    ck.ob('E.seek-layout', key, f.where(sk), ok, '' if ok else 'the total number of non-zeros is read at offset `%s`, the last row pointer is at `%s`' % (poly_show(p), poly_show(exp)))
+                    continue
+                base = start.get(tname)
+                if base is None:
+                    ck.ob('E.seek-layout', key, f.where(sk), False, 'read of `%s` at offset `%s`: the start of its section is not established (the total number of non-zeros has not been read from the last row pointer)' % (tname, poly_show(p)))
+                    continue
+                rem = poly_add(p, base, -1)
+                sz = 'sizeof(%s)' % et
+                bad = [m for m in rem if m.count(sz) != 1 or any(x.startswith('sizeof(') and x != sz for x in m)]
+                det = ''
+                ok = not bad
+                if bad:
+                    det = 'in %s: `%s` (elements of type %s) is read at offset `%s` = start of its section `%s` + `%s`: the remainder is not a multiple of %s' % (
+                        f.full[:80], tname, et, poly_show(p), poly_show(base), poly_show(rem), sz)
+                else:
+                    first = {tuple(x for x in m if x != sz): c for m, c in rem.items()}
+                    if f.q.endswith('read_crs'):
+                        want = V(rb) if tname == ptr else V('%s.front()' % ptr)
+                    else:
+                        want = poly_mul(V(rb), V(mm_))
+                    ok = first == want
+                    if not ok:
+                        det = 'in %s: `%s` is read starting at element `%s` of its section, the requested strip starts at element `%s`' % (f.full[:80], tname, poly_show(first), poly_show(want))
+                ck.ob('E.seek-layout', key, f.where(sk), ok, det)
